@@ -168,17 +168,35 @@ func c09Sanitiser(c *Ctx, p *Prog) {
 		}
 	}
 	c.Check(ok, "C09-R2", "GetContent:primary-rune-sanitised", p.pos(rets[0].Pos()), "every returned primary rune is blank, zero or a printable stored rune "+why)
-	// the width returned with a sanitised rune is 1 (phi of const 1 / c.width)
-	okW := false
+	// the width returned with a sanitised rune is 1: wherever the rune handed out is the blank, the
+	// width handed out with it is the constant 1 (a return of its own, or the matching edges of two phis)
+	okW, nBlank := true, 0
 	for _, r := range rets {
-		if phi, ok := derefCell(resultOf(r, 3)).(*ssa.Phi); ok {
-			for _, e := range phi.Edges {
-				if k, ok := constInt(e); ok && k == 1 {
-					okW = true
+		r0, r3 := derefCell(resultOf(r, 0)), derefCell(resultOf(r, 3))
+		if k, isK := constInt(r0); isK && k == ' ' {
+			nBlank++
+			if w, isW := constInt(r3); !isW || w != 1 {
+				okW = false
+			}
+			continue
+		}
+		if phi0, ok := r0.(*ssa.Phi); ok {
+			phi3, ok3 := r3.(*ssa.Phi)
+			for i, e := range phi0.Edges {
+				if k, isK := constInt(e); isK && k == ' ' {
+					nBlank++
+					if !ok3 || phi3.Block() != phi0.Block() {
+						okW = false
+						continue
+					}
+					if w, isW := constInt(phi3.Edges[i]); !isW || w != 1 {
+						okW = false
+					}
 				}
 			}
 		}
 	}
+	okW = okW && nBlank > 0
 	c.Check(okW, "C09-R2", "GetContent:blank-has-width-1", p.pos(rets[0].Pos()), "a sanitised cell reports width 1")
 }
 
@@ -594,7 +612,7 @@ func c09Args(c *Ctx, p *Prog) {
 				key := fmt.Sprintf("%s:call#%d:arg%d", short, k, i+1)
 				ok, why := nonNegative(v, call, 0)
 				if !ok {
-					if ex, reason := c09ArgException(short, valName(stripConv(derefCell(v)))); ex {
+					if ex, reason := c09ArgException(p, fn, short, valName(stripConv(derefCell(v)))); ex {
 						c.Exception(short + " " + valName(v) + ": " + reason)
 						c.OK("C09-R6", key, p.pos(call.Pos()), "exception: "+reason)
 						continue
@@ -610,13 +628,13 @@ func c09Args(c *Ctx, p *Prog) {
 }
 
 // c09ArgException: named exceptions, one symbol each.
-func c09ArgException(fn, arg string) (bool, string) {
+func c09ArgException(p *Prog, f *ssa.Function, fn, arg string) (bool, string) {
 	switch {
 	case fn == "(*tScreen).SetSize" && (arg == "w" || arg == "h"):
 		return true, "window size requested by the application, not cell content; outside the statement's draw histories"
 	case fn == "(*tScreen).drawCell" && arg == "(x-1)":
 		return true, "corner trick addresses column w-2; the statement quantifies over screens at least two columns wide"
-	case fn == "(*tScreen).drawCell$1" && arg == "(x-1)":
+	case (fn == "(*tScreen).drawCell$1" || deferredFromDrawCell(p, "tScreen", f)) && arg == "(x-1)":
 		return true, "corner trick (deferred part), same bound as above"
 	}
 	return false, ""
@@ -1102,7 +1120,12 @@ func onlyCalledStatically(p *Prog, fn *ssa.Function) bool {
 				for _, op := range in.Operands(nil) {
 					if *op == ssa.Value(fn) {
 						cc := callCommon(in)
-						if _, isCall := in.(*ssa.Call); !isCall || cc == nil || cc.StaticCallee() != fn {
+						// a direct call, also a deferred one or one started as a goroutine: the arguments
+						// are the values at that point
+						_, isCall := in.(*ssa.Call)
+						_, isDefer := in.(*ssa.Defer)
+						_, isGo := in.(*ssa.Go)
+						if !(isCall || isDefer || isGo) || cc == nil || cc.StaticCallee() != fn {
 							ok = false
 						}
 					}
